@@ -1,6 +1,75 @@
 import Driver.Util
-/-! Model driver stub (owned by the Currency work package). -/
+import Verif.Gen.Currency
+/-! Model driver of suite c18 (`modeld currency`): evaluates the definitions GENERATED from currency.go
+(`Verif/Gen/Currency.lean`) on the op lines of go/harness/suite_c18.go, so the correspondence run also validates the
+translator against the compiled Go. Op language and output format: see suite_c18.go. -/
 namespace Driver.Currency
-def step (s : Unit) (_w : List String) : Unit × String := (s, "unimplemented")
+open Verif.GoSem Verif.F64 Verif.Dec Verif.Gen.Currency Driver
+
+def u64? (s : String) : Option (BitVec 64) := do
+  let n ← s.toNat?
+  if n < 2 ^ 64 then some (BitVec.ofNat 64 n) else none
+
+def i64? (s : String) : Option (BitVec 64) := do
+  let i ← s.toInt?
+  if -(2 ^ 63 : Int) ≤ i ∧ i < 2 ^ 63 then some (BitVec.ofInt 64 i) else none
+
+def f64? (s : String) : Option F64 :=
+  if s.length ≠ 16 then none else
+  (s.toList.foldlM (fun (acc : Nat) c => do let v ← hexVal c; pure (acc * 16 + v)) 0).map (fun n => ⟨BitVec.ofNat 64 n⟩)
+
+def hex16 (b : BitVec 64) : String :=
+  String.ofList ((List.range 16).map (fun i => hexChar ((b.toNat / 16 ^ (15 - i)) % 16)))
+
+def fstr (x : F64) : String := if x.isNaN then "nan" else hex16 x.bits
+
+def errStr (e : ErrKind) : String := "err " ++ (e.msg.map (fun c => if c = ' ' then '_' else c))
+
+def out {α : Type} (show_ : α → String) : Res ErrKind α → String
+  | .ok a => "ok " ++ show_ a
+  | .err e => errStr e
+  | .panic => "panic"
+
+def ustr (b : BitVec 64) : String := toString b.toNat
+def istr (b : BitVec 64) : String := toString b.toInt
+def bstr (b : Bool) : String := if b then "true" else "false"
+
+def dec? (c e : String) : Option Dec := do
+  let c ← c.toInt?; let e ← e.toInt?; pure ⟨c, e⟩
+
+def run (w : List String) : Option String :=
+  match w with
+  | ["mul", a, b] => do let a ← u64? a; let b ← u64? b; pure (out ustr (MultCoin a b))
+  | ["add", a, b] => do let a ← u64? a; let b ← u64? b; pure (out ustr (AddCoin a b))
+  | ["sub", a, b] => do let a ← u64? a; let b ← u64? b; pure (out ustr (MinusCoin a b))
+  | ["min", a, b] => do let a ← u64? a; let b ← u64? b; pure (out ustr (Min a b))
+  | ["addi", c, i] => do let c ← u64? c; let i ← i64? i; pure (out ustr (AddInt64 c i))
+  | ["subi", c, i] => do let c ← u64? c; let i ← i64? i; pure (out ustr (MinusInt64 c i))
+  | ["dist", c, i] => do
+    let c ← u64? c; let i ← i64? i
+    pure (out (fun (p : Coin × Coin) => ustr p.1 ++ " " ++ ustr p.2) (DistributeCoin c i))
+  | ["i2c", i] => do let i ← i64? i; pure (out ustr (Int64ToCoin i))
+  | ["c2i", c] => do let c ← u64? c; pure (out istr (Coin_Int64 c))
+  | ["f2c", x] => do let x ← f64? x; pure (out ustr (Float64ToCoin x))
+  | ["mulf", c, x] => do let c ← u64? c; let x ← f64? x; pure (out ustr (MultFloat64 c x))
+  | ["c2f", c] => do let c ← u64? c; pure (out fstr (Coin_Float64 c))
+  | ["parse", x, dc, de] => do let x ← f64? x; let d ← dec? dc de; pure (out ustr (ParseZCN x d))
+  | ["tozcn", c] => do let c ← u64? c; pure (out fstr (Coin_ToZCN c))
+  | ["rt", c, dc, de] => do
+    let c ← u64? c; let d ← dec? dc de
+    pure (match Coin_ToZCN c with
+      | .ok f => out ustr (ParseZCN f d)
+      | .err e => errStr e
+      | .panic => "panic")
+  -- ops that pin the float model itself to the compiled Go arithmetic
+  | ["fmul", x, y] => do let x ← f64? x; let y ← f64? y; pure ("ok " ++ fstr (F64.mul x y))
+  | ["flt", x, y] => do let x ← f64? x; let y ← f64? y; pure ("ok " ++ bstr (F64.lt x y))
+  | ["fle", x, y] => do let x ← f64? x; let y ← f64? y; pure ("ok " ++ bstr (F64.le x y))
+  | ["feq", x, y] => do let x ← f64? x; let y ← f64? y; pure ("ok " ++ bstr (F64.eq x y))
+  | ["u2f", c] => do let c ← u64? c; pure ("ok " ++ fstr (F64.ofUInt64 c))
+  | ["f2u", x] => do let x ← f64? x; pure ("ok " ++ ustr (F64.toUInt64 x))
+  | _ => none
+
+def step (s : Unit) (w : List String) : Unit × String := (s, (run w).getD "bad-op")
 def main : IO Unit := Driver.loop () step
 end Driver.Currency
